@@ -182,6 +182,32 @@ def _quads(P, forms=(0, 1, 2)):
     return out
 
 
+def _elim_patterns():
+    """the shapes absorb_and_eliminate / remove_complements look for, in every operand order and with the negated operand on
+    either side:  (A . B) o (NOT A . B)  and  A o (A . B),  A o (NOT A . B)   for (., o) = (AND, OR) and (OR, AND)"""
+    out = []
+    As = ["x IS NULL", "x = 1", "k", "b", "x >= 1", "x IN (1, 2)"]
+    Bs = ["b", "y = 1", "x < 2", "y IS NULL"]
+    for a, bb in itertools.product(As, Bs):
+        if a == bb:
+            continue
+        na = f"NOT {a}" if " " not in a else f"NOT ({a})"
+        na2 = f"NOT {a}"  # NOT x IS NULL: NOT binds looser than IS / comparison, same tree as NOT (x IS NULL)
+        for inner, outer in (("AND", "OR"), ("OR", "AND")):
+            for n in {na, na2}:
+                for l, r in ((a, n), (n, a)):
+                    for swap_l in (False, True):
+                        for swap_r in (False, True):
+                            L = f"{bb} {inner} {l}" if swap_l else f"{l} {inner} {bb}"
+                            R = f"{bb} {inner} {r}" if swap_r else f"{r} {inner} {bb}"
+                            out.append(f"({L}) {outer} ({R})")
+                for x in (a, n):
+                    for y in (a, n):
+                        out.append(f"{x} {outer} ({y} {inner} {bb})")
+                        out.append(f"({bb} {inner} {y}) {outer} {x}")
+    return list(dict.fromkeys(out))
+
+
 A_MED = A_TRI + ["x IN (1, NULL)", "k", "NULL", "y = 1"]
 THOROUGH_CAP = 260_000  # safety net only: the thorough space below is smaller
 
@@ -194,6 +220,7 @@ def space(tier):
     out += _pairs_not(A_SMALL)
     out += _triples(A_TRI, (0, 1, 3)) + [f"NOT ({s})" for s in _triples(A_TRI, (0, 1))]
     out += _quads(A_QUAD_QUICK, (0,))
+    out += _with_not(_elim_patterns())
     if tier == "thorough":  # a superset of quick
         out += _triples(A_TRI, (2,)) + [f"NOT ({s})" for s in _triples(A_TRI, (2, 3)) + _pairs_not(A_SMALL)]
         out += _pairs(A_PAIR, A)
